@@ -246,9 +246,9 @@ class FutureTable(Model):
     def __init__(self, name, S, n, init_states=None):
         self.name, self.n = name, n
         for i in range(n):
-            S.declare(f"{name}.st.{i}", 3, None if init_states is None else init_states[i])
-            S.declare(f"{name}.res.{i}", 3, 0)
-            S.declare(f"{name}.sets.{i}", 2, 0)  # ghost: how many times a result/exception was set
+            S.declare(f"{name}.st.{i}", W, None if init_states is None else init_states[i])
+            S.declare(f"{name}.res.{i}", W, 0)
+            S.declare(f"{name}.sets.{i}", W, 0)  # ghost: how many times a result/exception was set
         S.declare(f"{name}.next", W, 0)
 
     def result_type(self, method):
@@ -269,7 +269,7 @@ class FutureTable(Model):
         return {f"{self.name}.{what}.{j}": z3.If(i == BV(j), val, S[f"{self.name}.{what}.{j}"]) for j in range(self.n)}
 
     def outcomes(self, method, args, kwargs, t, S):
-        b3 = lambda v: z3.BitVecVal(v, 3)
+        b3 = lambda v: BV(v)
         if method == "alloc":
             nx = S[f"{self.name}.next"]
             u = {f"{self.name}.next": nx + 1}
